@@ -149,12 +149,18 @@ func Main(spec *Spec) {
 		*maxRuns, procRun = c.Proc.Run+1, c.Proc.Run
 		*mode = "explore"
 	}
+	core.SetSimCPUs(*seed, *worker)
 	sim.StartWatchdog(out, finish)
 	if *mode == "replay" {
 		c, err := sim.LoadCase(*casePath)
 		if err != nil {
 			fmt.Fprintln(os.Stderr, "replay:", err)
 			os.Exit(2)
+		}
+		core.SimCPUs = 4
+		if c.Proc != nil {
+			sd, _ := strconv.ParseUint(c.Proc.Seed, 10, 64)
+			core.SetSimCPUs(sd, c.Proc.Worker)
 		}
 		want := c.Violation
 		c.Violation = nil
